@@ -4,6 +4,7 @@ import (
 	"fmt"
 	"strings"
 	"sync"
+	"sync/atomic"
 	"time"
 
 	"verifharness/internal/gen"
@@ -37,7 +38,13 @@ func c12(c *Ctx) {
 	c.Rep.Rule = "generated call graphs with failing sites (dynamic expressions returning an error, helpers given unsupported values, nested templates and children blocks containing such sites) x environments choosing which expressions fail x writer plans (every Write call failing or short; a destination that also has a Flush() error method); oracle on the real program: a failing site => non-nil error of the right cause and an empty Write log (the final write excepted), nil error => exactly the complete document; distinct = distinct (template, environment, plan); non-trivial = a site failed or a writer plan was active"
 	o := gen.Opts{ObjRefs: true, ClassExprs: true, AttributesCmd: true, NonASCII: false, MaxDepth: 3, FailSites: true, RenderHeavy: true}
 	var cases []*RenderCase
-	for i := 0; i < c.N(2, 30); i++ {
+	nTied := c.N(2, 30)
+	// further files use `- switch` / `- case` / `- default` blocks: the run-time model has no switch statement, so
+	// these are judged by the oracle only (the code emitted for them is tied by the compile-level checks)
+	for i := 0; i < nTied+c.N(1, 10); i++ {
+		if i == nTied {
+			o.Switch = true
+		}
 		f := gen.GenFile(newRand(c.R.Int63()), o, 3, c.N(20, 30))
 		prepFile(f)
 		p, src := f.Print()
@@ -70,7 +77,7 @@ func c12(c *Ctx) {
 	}
 	c.renderBoth(cases)
 	c.featDist(cases)
-	c.tieRender(cases, true)
+	c.tieRender(cases[:nTied], true)
 	for _, rc := range cases {
 		c.dist("stage." + rc.Stage)
 		if rc.Stage != "ok" {
@@ -161,6 +168,9 @@ func c13(c *Ctx) {
 			{Kind: gen.KElem, Tag: "a", ClassExprs: []string{"xs", "s1"}, Inline: &gen.Node{Kind: gen.KText, Parts: []gen.Part{{Static: "go"}}}},
 			// every helper with a list argument is used by a render that succeeds (other renders fail half way through theirs)
 			{Kind: gen.KElem, Tag: "u", AttrsCmd: "m0, mb", Inline: &gen.Node{Kind: gen.KText, Parts: []gen.Part{{Static: "attrs"}}}},
+			// … and with one argument only, of either map type
+			{Kind: gen.KElem, Tag: "u", AttrsCmd: "m0", Inline: &gen.Node{Kind: gen.KText, Parts: []gen.Part{{Static: "one string map"}}}},
+			{Kind: gen.KElem, Tag: "u", AttrsCmd: "mb", Inline: &gen.Node{Kind: gen.KText, Parts: []gen.Part{{Static: "one bool map"}}}},
 			{Kind: gen.KFor, Chain: []gen.Branch{{Header: "for _, x := range xs", Kids: []*gen.Node{{Kind: gen.KElem, Tag: "i", ClassExprs: []string{"xs", `"k"`}, Inline: &gen.Node{Kind: gen.KScript, Expr: "x"}}}}}},
 		}})
 		// … and by renders that fail half way through their list (a valid value, then one of an unsupported type)
@@ -184,6 +194,9 @@ func c13(c *Ctx) {
 			big := c.genEnv(99)
 			big.S0 = strings.Repeat("0123456789abcdef", 6000) // 96 KB
 			big.Xs = nil
+			// (its maps have several entries each)
+			big.M0 = map[string]string{"data-a": "1", "title": "t", "x": "y", "a b": "z", "lang": "en"}
+			big.MB = map[string]bool{"on": true, "hidden": true, "c1": true, "z": true, "off": false}
 			for k := 0; k < 300; k++ {
 				big.Xs = append(big.Xs, "row")
 			}
@@ -208,6 +221,7 @@ func c13(c *Ctx) {
 	races := make([]string, len(seqs))
 	isos := make([]map[string]rt.Result, len(seqs))
 	var isoMu sync.Mutex
+	var retried atomic.Int32
 	for si, s := range seqs {
 		si, s := si, s
 		wg.Add(1)
@@ -280,6 +294,12 @@ func c13(c *Ctx) {
 				}
 			}
 			res, stderr, err := b.RunConc(s.rc.Envs, s.rc.Jobs, 180*time.Second, g)
+			if err != nil && err.Error() == "timeout" {
+				// the limit is the harness's own, and the machine may be busy with other work: once more, with a
+				// limit four times as long (a render that really never returns is still reported)
+				res, stderr, err = b.RunConc(s.rc.Envs, s.rc.Jobs, 720*time.Second, g)
+				retried.Add(1)
+			}
 			s.rc.Real = res
 			if strings.Contains(stderr, "DATA RACE") {
 				races[si] = stderr
@@ -290,6 +310,9 @@ func c13(c *Ctx) {
 		}()
 	}
 	wg.Wait()
+	if n := retried.Load(); n > 0 {
+		c.Rep.Notes = append(c.Rep.Notes, fmt.Sprintf("%d batch(es) exceeded the harness's 180 s limit and were run again with a 720 s limit", n))
+	}
 	for si, s := range seqs {
 		rc := s.rc
 		c.dist("stage." + rc.Stage)
